@@ -84,16 +84,32 @@ def generic_violations(w: Any, allow_handler_exc: bool = False) -> List[dict]:
     return out
 
 
+def exc_site(e: BaseException) -> str:
+    """<ExcType>@<innermost hypercorn function>; exception groups are flattened."""
+    if isinstance(e, BaseExceptionGroup):
+        return "+".join(sorted({exc_site(x) for x in e.exceptions}))
+    site = "?"
+    tb = e.__traceback__
+    while tb is not None:
+        fn = tb.tb_frame.f_code.co_filename
+        if "/hypercorn/" in fn:
+            site = f"{fn.rsplit('/hypercorn/', 1)[1]}:{tb.tb_frame.f_code.co_name}"
+        tb = tb.tb_next
+    return f"{type(e).__name__}@{site}"
+
+
 def internal_errors(w: Any) -> List[dict]:
     """Unhandled exceptions: per-connection handler results and the loop's exception handler."""
     out: List[dict] = []
     for k, rec in sorted(w.conns.items()):
         if rec.handler is not None and rec.handler.startswith("exc:"):
-            out.append(V("handler-exception", _exc_key(rec.handler[4:]), f"conn {k}: {rec.handler}"))
+            exc = getattr(rec, "handler_exc", None)
+            key = exc_site(exc) if exc is not None else _exc_key(rec.handler[4:])
+            out.append(V("handler-exception", key, f"conn {k}: {rec.handler}"))
     for ctx in w.exc_contexts:
         exc = ctx.get("exception")
         msg = ctx.get("message", "")
-        key = f"{type(exc).__name__ if exc is not None else 'noexc'}"
+        key = exc_site(exc) if exc is not None else "noexc:" + msg[:40]
         out.append(V("loop-exception-handler", key, f"{msg}: {exc!r}"))
     return out
 
